@@ -36,7 +36,7 @@ TOUCH_DROP = [["touch_given", 2, 3], ["clone_drop"], ["drop_arena"]]
 
 class Q:
     def __init__(self, name, props, tier, kind, freelist, setup, p1, p2, steps, switches, first, n1=(1, 24), n2=None, timeout=1800, role=None,
-                 selftest=False, retries=1, p3=None, plan=None):
+                 selftest=False, retries=1, p3=None, plan=None, min_seg=8):
         self.name, self.props, self.tier, self.kind = name, props, tier, kind
         self.freelist, self.setup, self.p1, self.p2 = freelist, setup, p1, p2
         self.steps, self.switches, self.first = steps, switches, first
@@ -44,6 +44,7 @@ class Q:
         self.selftest = selftest
         self.retries = retries
         self.p3, self.plan = p3, plan
+        self.min_seg = min_seg
 
     def spec(self, mir, src):
         sp, sargs, given = SETUPS[self.setup]
@@ -68,14 +69,14 @@ class Q:
         extra = {"plan": self.plan} if self.plan else {}
         if getattr(self, "exclude", None):
             extra["exclude"] = list(self.exclude)
-        return {**extra, "name": self.name, "mir": mir, "src": src, "cap": 96, "freelist": self.freelist, "min_seg": 8, "retries": self.retries, "init": "fresh",
+        return {**extra, "name": self.name, "mir": mir, "src": src, "cap": 96, "freelist": self.freelist, "min_seg": self.min_seg, "retries": self.retries, "init": "fresh",
                 "progs": progs, "args": args, "steps": [SETUP_STEPS[self.setup]] + self.steps, "kind": self.kind, "switches": self.switches,
                 "first": self.first, "timeout_s": self.timeout, "selftest": self.selftest}
 
     def bounds(self):
-        return ("CAP=96 unified layout, min_segment_size=8, maximum_retries=%d, list=%s, setup=%s, programs=%s|%s, sizes in %s, <=%d context switches "
+        return ("CAP=96 unified layout, min_segment_size=%d, maximum_retries=%d, list=%s, setup=%s, programs=%s|%s, sizes in %s, <=%d context switches "
                 "(first mover: thread %d), per-thread step bounds %s, <=1 spurious weak-CAS failure per thread%s" %
-                (self.retries, self.freelist, self.setup, json.dumps(self.p1), json.dumps(self.p2), list(self.n1), self.switches, self.first, self.steps,
+                (self.min_seg, self.retries, self.freelist, self.setup, json.dumps(self.p1), json.dumps(self.p2), list(self.n1), self.switches, self.first, self.steps,
                  (", third thread %s, explicit shape %s" % (json.dumps(self.p3), json.dumps(self.plan))) if self.plan else ""))
 
 
@@ -112,6 +113,8 @@ def families():
     # --- C07: no operation waits for ever
     qs.append(Q("live_alloc_vs_dealloc_opt_sw2_d", ["C07"], "quick", "live", "Optimistic", "S_HN", ALLOC, DEALLOC, [22, 14], 2, 2, n1=(1, 24), role="waiter_after_pop"))
     qs.append(Q("live_alloc_vs_dealloc_opt_sw3", ["C07"], "thorough", "live", "Optimistic", "S_HN", ALLOC, DEALLOC, [24, 16], 3, 1, n1=(1, 24), role="waiter_after_pop", timeout=2400))
+    # minimum_segment_size = 0: a released block that only just holds a node header must not become a zero-sized node
+    qs.append(Q("live_alloc_vs_dealloc_opt_sw2_d_minseg0", ["C07"], "quick", "live", "Optimistic", "S_H", ALLOC, DEALLOC, [22, 14], 2, 2, n1=(1, 24), min_seg=0))
     qs.append(Q("live_alloc_vs_dealloc_pess_sw3", ["C07"], "thorough", "live", "Pessimistic", "S_HN", ALLOC, DEALLOC, [24, 16], 3, 1, n1=(1, 24), role="waiter_after_pop"))
     qs.append(Q("live_alloc_vs_dealloc_opt_sw3_d", ["C07"], "thorough", "live", "Optimistic", "S_HN", ALLOC, DEALLOC, [24, 16], 3, 2, n1=(1, 24)))
     # an allocation whose unlink CAS loses against a concurrent insertion at the head, followed by one more allocation
